@@ -348,6 +348,7 @@ def _run_check(prop, tier, seed, replay, t0, violations, known_lines):
             'traces_validated_against_impl': compared,
             'samples': samples, 'input_distribution': dist,
             'known_finding_hits': {k: len(v) for k, v in known_hits.items()},
+            'model_evaluations_not_finished_in_time': coqrun.MODEL_TIMEOUTS[0],
         },
         'assumptions': list(getattr(prop, 'ASSUMPTIONS', [])),
         'wall_s': round(time.time() - t0, 1),
